@@ -1,10 +1,15 @@
 #!/bin/bash
-# tools/seedmatrix.sh [out] — every seeded change against the quick check of its own property
+# tools/seedmatrix.sh [out] [jobs] — every seeded change against the quick check of its own
+# property (or meta.json's check_with); <jobs> seeds at a time (flock serialises the git
+# worktree bookkeeping, which is not safe to run concurrently)
 cd /verif
-OUT="${1:-/tmp/seedmatrix.log}"; : > "$OUT"
-for d in seeded/*/; do
-  id=$(basename $d)
-  [ -f "$d/patch.diff" ] || continue
+OUT="${1:-/tmp/seedmatrix.log}"; J="${2:-3}"; : > "$OUT"
+one() {
+  d="$1"; id=$(basename $d)
+  [ -f "$d/patch.diff" ] || return
   P=$(python3 -c "import json;m=json.load(open('$d/meta.json'));print(m.get('check_with') or m.get('property','${id:0:3}'))" 2>/dev/null || echo ${id:0:3})
-  tools/runseed.sh $id $P 2>&1 | tail -1 | tee -a "$OUT"
-done
+  tools/runseed.sh $id $P 2>&1 | tail -1 >> "$OUT"
+}
+export -f one; export OUT
+ls -d seeded/*/ | xargs -P "$J" -I{} bash -c 'one {}'
+sort -o "$OUT" "$OUT"
